@@ -701,5 +701,95 @@ theorem path_of_step (p : Params) {s : SState} (hq : QInv s) (op : Op) (t : Tid)
     | snap => exact ⟨[], rfl⟩
     | freq k => exact ⟨[], rfl⟩
 
+/-! ### progress -/
+
+theorem step_maint_eq (p : Params) {c : CState} (hr : c.s.running = false) (t : Tid) :
+    step p c (.maint t) = some { c with s := trySync p c.s } := by
+  simp only [step, hr, Bool.false_eq_true, if_false]
+
+theorem step_sync_eq' (p : Params) {c : CState} (hr : c.s.running = false) (t : Tid) :
+    step p c (.sync t) = some { c with s := syncRun p c.s } := by
+  simp only [step, hr, Bool.false_eq_true, if_false]
+
+/-- Enqueuing what thread `t` holds is enabled as soon as the write queue has room (always,
+for a read), and the thread is idle afterwards. -/
+theorem step_enq_enabled (p : Params) {c : CState} {t : Tid} {pd : Pend}
+    (hp : pendOf c.pending t = some pd)
+    (hroom : ∀ op, pd = .write op → c.s.writeQ.length < Gen.WRITE_LOG_SIZE) :
+    ∃ c', step p c (.enq t) = some c' ∧ c'.pending = dropPend c.pending t := by
+  simp only [step, hp]
+  cases pd with
+  | write op =>
+    dsimp only
+    rw [if_pos (hroom op rfl)]
+    exact ⟨_, rfl, rfl⟩
+  | read op =>
+    dsimp only
+    by_cases hl : c.s.readQ.length < Gen.READ_LOG_SIZE
+    · rw [if_pos hl]; exact ⟨_, rfl, rfl⟩
+    · rw [if_neg hl]; exact ⟨_, rfl, rfl⟩
+
+/-- After one maintenance run (by any thread `t'`) thread `t` can enqueue what it holds. -/
+theorem maint_then_enq (p : Params) {c : CState} (hr : c.s.running = false) {t : Tid} {pd : Pend}
+    (hp : pendOf c.pending t = some pd) (t' : Tid) :
+    ∃ c1 c2, step p c (.maint t') = some c1 ∧ step p c1 (.enq t) = some c2 ∧
+      c2.pending = dropPend c.pending t := by
+  refine ⟨{ c with s := trySync p c.s }, ?_⟩
+  have hw := (trySync_spec p c.s hr).writeQ
+  obtain ⟨c2, h2, h3⟩ := step_enq_enabled p (c := { c with s := trySync p c.s }) (t := t) hp
+    (fun op _ => by
+      show (trySync p c.s).writeQ.length < _
+      rw [hw]; decide)
+  exact ⟨c2, step_maint_eq p hr t', h2, h3⟩
+
+theorem dropPend_length_le (l : List (Tid × Pend)) (t : Tid) : (dropPend l t).length ≤ l.length := by
+  induction l with
+  | nil => exact Nat.le_refl _
+  | cons x l ih =>
+    simp only [dropPend]
+    split
+    · exact Nat.le_succ_of_le ih
+    · exact Nat.succ_le_succ ih
+
+theorem dropPend_head_length (t : Tid) (pd : Pend) (l : List (Tid × Pend)) :
+    (dropPend ((t, pd) :: l) t).length ≤ l.length := by
+  simp only [dropPend, if_true]
+  exact dropPend_length_le l t
+
+theorem pendOf_head (t : Tid) (pd : Pend) (l : List (Tid × Pend)) :
+    pendOf ((t, pd) :: l) t = some pd := by
+  simp only [pendOf, if_true]
+
+/-- From every reachable state every started call can complete: two events (`maint`, `enq`) per
+thread that holds an operation lead to a state in which nobody holds anything. -/
+theorem drain {p : Params} (hq : NoQuirks p) (hsm : SmallSketch p) : ∀ (n : Nat) (c : CState),
+    Reach p c → c.pending.length ≤ n →
+      ∃ evs c', evs.length ≤ 2 * n ∧ runEvs p c evs = some c' ∧ c'.pending = [] ∧ Reach p c' := by
+  intro n
+  induction n with
+  | zero =>
+    intro c hr hn
+    exact ⟨[], c, Nat.le_refl _, rfl, List.eq_nil_of_length_eq_zero (Nat.le_zero.mp hn), hr⟩
+  | succ n ih =>
+    intro c hr hn
+    cases hp : c.pending with
+    | nil => exact ⟨[], c, Nat.zero_le _, rfl, hp, hr⟩
+    | cons x rest =>
+      obtain ⟨t, pd⟩ := x
+      have hrun := (reach_csinv hq hsm hr).running
+      have hpo : pendOf c.pending t = some pd := by rw [hp]; exact pendOf_head t pd rest
+      obtain ⟨c1, c2, h1, h2, h3⟩ := maint_then_enq p hrun hpo t
+      have hr2 : Reach p c2 := Reach.step _ (Reach.step _ hr h1) h2
+      have hlen : c2.pending.length ≤ n := by
+        rw [h3, hp]
+        have := dropPend_head_length t pd rest
+        rw [hp, List.length_cons] at hn
+        omega
+      obtain ⟨evs, c', e1, e2, e3, e4⟩ := ih c2 hr2 hlen
+      refine ⟨.maint t :: .enq t :: evs, c', ?_, ?_, e3, e4⟩
+      · simp only [List.length_cons]; omega
+      · simp only [runEvs, h1, h2]
+        exact e2
+
 end ConcS
 end MiniMoka
